@@ -240,6 +240,7 @@ class Canon:
             self.beta_reduce_blocks(body)
             self.assign_forms(body)
             self.match_ints(body)
+            self.match_bools(body)
             self.if_assign(body)
             self.mem_replace(body)
             self.loop_to_while(body)
@@ -1427,6 +1428,65 @@ class Canon:
                 blk["stmts"] = [s_ for s_ in blk["stmts"] if not s_.get("canon_dead")]
 
     # ------------------------------------------------------------------ P8
+    def match_bools(self, body):
+        """`match c { true => A, false => B }` (either order, or `_` for the second)  ->  `if c { A } else { B }`;  and as a statement
+        `if c { <diverges> } else { B }`  ->  `if c { <diverges> }  B`: the fall-through work after the guard."""
+        for n in list(_walk(body)):
+            if n.get("k") != "Match" or len(n.get("arms", [])) != 2 or any(a.get("guard") is not None for a in n["arms"]):
+                continue
+            if str(_strip(n["scrut"]).get("ty", "")) != "bool":
+                continue
+            a0, a1 = n["arms"]
+            l0 = str(a0["pat"].get("lit", "")) if a0["pat"].get("k") == "PatExpr" else None
+            l1 = str(a1["pat"].get("lit", "")) if a1["pat"].get("k") == "PatExpr" else ("_" if a1["pat"].get("k") == "Wild" else None)
+            if l0 not in ("true", "false") or l1 not in ("true", "false", "_") or l0 == l1:
+                continue
+            th, el = (a0["body"], a1["body"]) if l0 == "true" else (a1["body"], a0["body"])
+            def blk_(b_):
+                b0 = _strip(b_)
+                if b0.get("k") == "Block" and not b0.get("m"):
+                    return b_
+                unit = str(b0.get("ty")) in ("()", "!")
+                return {"k": "Block", "stmts": [{"k": "Semi", "e": b_, "sp": b_.get("sp")}] if unit else [], "expr": None if unit else b_, "id": self._id(), "ty": b0.get("ty"), "sp": list(b_.get("sp") or [0, 0, 0, 0])}
+            new = {"k": "If", "cond": n["scrut"], "then": blk_(th), "else": blk_(el), "id": self._id(), "ty": n.get("ty"), "sp": list(n.get("sp") or [0, 0, 0, 0]), "canon": "match-bool"}
+            n.clear()
+            n.update(new)
+            self.stats["match_bools"] = self.stats.get("match_bools", 0) + 1
+        for blk in [x for x in _walk(body) if x.get("k") == "Block"]:
+            out, ch = [], False
+            tl = blk.get("expr")
+            if tl is not None and _strip(tl).get("k") == "If" and str(_strip(tl).get("ty")) == "()" and _strip(tl).get("else") is not None and self._diverges(_strip(tl)["then"]):
+                blk["stmts"] = list(blk.get("stmts", [])) + [{"k": "Semi", "e": tl, "sp": tl.get("sp")}]      # a unit `if` in tail position is a statement
+                blk["expr"] = None
+            for st in blk.get("stmts", []):
+                e = _strip(st.get("e") or {}) if st.get("k") in ("Semi", "Expr") else {}
+                if e.get("k") == "If" and e.get("else") is not None and not e.get("m") and str(e.get("ty")) in ("()", "None") and self._diverges(e["then"]) and \
+                        _strip(e["else"]).get("k") == "Block" and not _strip(e["else"]).get("m") and not any(x.get("k") == "Let" for x in _strip(e["else"]).get("stmts", [])):
+                    eb = _strip(e["else"])
+                    e["else"] = None
+                    out.append(st)
+                    out.extend(eb.get("stmts", []))
+                    if eb.get("expr") is not None:
+                        out.append({"k": "Semi", "e": eb["expr"], "sp": eb["expr"].get("sp")})
+                    ch = True
+                else:
+                    out.append(st)
+            if ch:
+                blk["stmts"] = out
+
+    @staticmethod
+    def _diverges(b):
+        b = _strip(b)
+        if str(b.get("ty")) == "!" or b.get("k") in ("Ret", "Break", "Continue"):
+            return True
+        if b.get("k") == "Block":
+            for s_ in b.get("stmts", []):
+                e_ = s_.get("e") or s_.get("init")
+                if isinstance(e_, dict) and Canon._diverges(e_):
+                    return True
+            return b.get("expr") is not None and Canon._diverges(b["expr"])
+        return False
+
     def match_ints(self, body):
         """`match s { 1 => A, 2 => B, _ => C }` on an integer s that is a plain local / parameter / field  ->
         `if s == 1 { A } else if s == 2 { B } else { C }` (s has no side effects, so evaluating it per test is the same)."""
@@ -1527,6 +1587,10 @@ class Canon:
                     rev, lo, hi, newbody = False, decl[1]["init"], r_, bst[:-1]
                 elif c["op"] == ">" and is_step(bst[0], "-="):
                     rev, lo, hi, newbody = True, r_, decl[1]["init"], bst[1:]
+                elif c["op"] == ">" and is_step(bst[-1], "-=") and _strip(r_).get("k") == "Lit" and _strip(r_).get("v") == "0" and \
+                        len([x for x in _walk(wb) if x.get("k") == "Local" and x.get("v") == iv]) == 1:
+                    # `let mut left = n; while left > 0 { body; left -= 1; }`, the counter used for nothing else: n passes
+                    rev, lo, hi, newbody = False, r_, decl[1]["init"], bst[:-1]
                 if rev is None:
                     continue
                 if c["op"] == "!=" and not (_strip(lo).get("k") == "Lit" and _strip(lo).get("v") == "0"):
